@@ -13,8 +13,9 @@ Definition huff_class (e : N) : Prop := e = E_huff_index \/ e = E_huff_left \/ e
 Lemma dec_inner_err : forall fuel root s e, dec_inner fuel root s = Err e -> huff_class e.
 Proof.
   induction fuel as [|fuel IH]; intros root s e H; [discriminate|].
-  cbn [dec_inner] in H.
+  rewrite dec_inner_S in H.
   destruct (8 <=? d_bits s); [|discriminate].
+  cbv zeta in H.
   destruct (step_node (d_node s) (u8 (N.shiftr (d_acc s) (d_bits s - 8)))) as [[[sym cl|sub]|]|e'|w] eqn:E.
   - eapply IH; exact H.
   - eapply IH; exact H.
@@ -26,8 +27,8 @@ Qed.
 Lemma dec_bytes_err : forall root src s e, dec_bytes root src s = Err e -> huff_class e.
 Proof.
   intros root. induction src as [|b rest IH]; intros s e H; [discriminate|].
-  cbn [dec_bytes] in H.
-  match type of H with match ?X with _ => _ end = _ => destruct X as [s2|e'|w] eqn:E end.
+  rewrite dec_bytes_cons in H. remember 40%nat as f40 eqn:Hf. clear Hf.
+  destruct (dec_inner f40 root _) as [s2|e'|w] eqn:E.
   - eapply IH; exact H.
   - injection H as <-. eapply dec_inner_err; exact E.
   - discriminate.
@@ -36,8 +37,9 @@ Qed.
 Lemma dec_tail_err : forall fuel root s e, dec_tail fuel root s = Err e -> huff_class e.
 Proof.
   induction fuel as [|fuel IH]; intros root s e H; [discriminate|].
-  cbn [dec_tail] in H.
+  rewrite dec_tail_S in H.
   destruct (0 <? d_bits s); [|discriminate].
+  cbv zeta in H.
   destruct (step_node (d_node s) (u8 (N.shiftl (d_acc s) (8 - d_bits s)))) as [[[sym cl|sub]|]|e'|w] eqn:E.
   - destruct (d_bits s <? cl); [discriminate|]. eapply IH; exact H.
   - discriminate.
@@ -46,11 +48,24 @@ Proof.
   - discriminate.
 Qed.
 
+Lemma huffman_decode_with_unfold root src : huffman_decode_with root src =
+  match dec_bytes root src (mkD 0 0 0 root []) with
+  | Ok s1 =>
+    match dec_tail 16 root s1 with
+    | Ok s2 => dec_finish s2
+    | Err e => Err e
+    | Panic w => Panic w
+    end
+  | Err e => Err e
+  | Panic w => Panic w
+  end.
+Proof. reflexivity. Qed.
+
 Lemma huffman_decode_with_err root src e : huffman_decode_with root src = Err e -> huff_class e.
 Proof.
-  unfold huffman_decode_with.
+  rewrite huffman_decode_with_unfold. remember 16%nat as f16 eqn:Hf. clear Hf.
   destruct (dec_bytes root src _) as [s1|e1|w1] eqn:E1.
-  - destruct (dec_tail 16 root s1) as [s2|e2|w2] eqn:E2.
+  - destruct (dec_tail f16 root s1) as [s2|e2|w2] eqn:E2.
     + unfold dec_finish. destruct (7 <? d_left s2).
       * intros H. injection H as <-. right. left. reflexivity.
       * destruct (_ =? _); [discriminate|]. intros H. injection H as <-. right. right. reflexivity.
